@@ -69,5 +69,5 @@ Print Assumptions C01_label_bare_refuted.
 
 (* non-vacuity: a program with labelled loop, try/finally, break/continue/return meets the guard *)
 Example C01_guard_met : wf (SBlock w_wf) = true /\
-  run_o 100 [10%nat] 0 w_wf = (mkst [(10%nat, VNum 2)] [VNum 1; VNum 2] 40 0, [], OReturned (VNum 2)).
+  run_o 100 [10%nat] 0 w_wf = (mkst [(10%nat, VNum 2)] [VNum 1; VNum 2] 44 0 None, [], OReturned (VNum 2)).
 Proof. exact w_wf_ok. Qed.
